@@ -12,6 +12,61 @@ import (
 
 type Locker = sync.Locker
 
+// held lists the shim locks that are currently locked. An execution that is cut short (a violation,
+// the horizon) leaves the locks of its parked threads locked; for locks living in package-level
+// variables of the library that state would leak into the next execution, so every lock still held
+// is force-released when the next execution starts.
+var held []releasable
+
+type releasable interface{ forceRelease() }
+
+//go:norace
+func noteHeld(x releasable) { held = append(held, x) }
+
+//go:norace
+func noteFree(x releasable) {
+	for i := len(held) - 1; i >= 0; i-- {
+		if held[i] == x {
+			held[i] = held[len(held)-1]
+			held[len(held)-1] = nil
+			held = held[:len(held)-1]
+			return
+		}
+	}
+}
+
+//go:norace
+func releaseAllHeld() {
+	h := held
+	held = nil
+	for _, x := range h {
+		x.forceRelease()
+	}
+}
+
+func init() { vsched.RegisterReset(releaseAllHeld) }
+
+//go:norace
+func (m *Mutex) forceRelease() {
+	if m.w != 0 {
+		m.w = 0
+		m.real.Unlock()
+	}
+}
+
+//go:norace
+func (m *RWMutex) forceRelease() {
+	switch {
+	case m.w < 0:
+		m.real.Unlock()
+	case m.w > 0:
+		for i := int32(0); i < m.w; i++ {
+			m.real.RUnlock()
+		}
+	}
+	m.w = 0
+}
+
 type Mutex struct {
 	w    int32
 	real sync.Mutex
@@ -33,6 +88,7 @@ func (m *Mutex) Lock() {
 	}
 	m.set(1)
 	m.real.Lock()
+	noteHeld(m)
 }
 
 func (m *Mutex) TryLock() bool {
@@ -42,6 +98,7 @@ func (m *Mutex) TryLock() bool {
 	}
 	m.set(1)
 	m.real.Lock()
+	noteHeld(m)
 	return true
 }
 
@@ -56,6 +113,7 @@ func (m *Mutex) Unlock() {
 	}
 	m.real.Unlock()
 	m.set(0)
+	noteFree(m)
 	vsched.PointOp(vsched.OpUnlocked)
 }
 
@@ -84,6 +142,7 @@ func (m *RWMutex) Lock() {
 	}
 	m.set(-1)
 	m.real.Lock()
+	noteHeld(m)
 }
 
 func (m *RWMutex) TryLock() bool {
@@ -93,6 +152,7 @@ func (m *RWMutex) TryLock() bool {
 	}
 	m.set(-1)
 	m.real.Lock()
+	noteHeld(m)
 	return true
 }
 
@@ -107,6 +167,7 @@ func (m *RWMutex) Unlock() {
 	}
 	m.real.Unlock()
 	m.set(0)
+	noteFree(m)
 	vsched.PointOp(vsched.OpUnlocked)
 }
 
@@ -117,6 +178,9 @@ func (m *RWMutex) RLock() {
 	}
 	m.add(1)
 	m.real.RLock()
+	if m.get() == 1 {
+		noteHeld(m)
+	}
 }
 
 func (m *RWMutex) TryRLock() bool {
@@ -126,6 +190,9 @@ func (m *RWMutex) TryRLock() bool {
 	}
 	m.add(1)
 	m.real.RLock()
+	if m.get() == 1 {
+		noteHeld(m)
+	}
 	return true
 }
 
@@ -140,6 +207,9 @@ func (m *RWMutex) RUnlock() {
 	}
 	m.real.RUnlock()
 	m.add(-1)
+	if m.get() == 0 {
+		noteFree(m)
+	}
 	vsched.PointOp(vsched.OpUnlocked)
 }
 
@@ -205,10 +275,20 @@ type Pool struct {
 	New   func() any
 	mu    sync.Mutex
 	items []any
+	reg   bool
+}
+
+// register: a Pool (typically a package-level variable) is emptied at the start of every execution.
+func (p *Pool) register() {
+	if !p.reg {
+		p.reg = true
+		vsched.RegisterReset(func() { p.mu.Lock(); p.items = nil; p.mu.Unlock() })
+	}
 }
 
 func (p *Pool) Get() any {
 	p.mu.Lock()
+	p.register()
 	if n := len(p.items); n > 0 {
 		x := p.items[n-1]
 		p.items = p.items[:n-1]
@@ -227,6 +307,7 @@ func (p *Pool) Put(x any) {
 		return
 	}
 	p.mu.Lock()
+	p.register()
 	p.items = append(p.items, x)
 	p.mu.Unlock()
 }
